@@ -794,6 +794,65 @@ example : (∃ u : Zn.U 35, Zn.Rel 35 2 u) ∧ (∃ u : Zn.U 35, Zn.Rel 35 9 u) 
     rel_exists 35 (by norm_num) 9 (by norm_num) (by norm_num) (by decide), hinv, ?_⟩
   simp [Zn.znOps, hinv, Zn.modPowNat_eq]
 
+
+theorem forall₂_rel_unique {N : ℕ} [NeZero N] {l k : List ℤ} {l' : List (Zn.U N)}
+    (h1 : List.Forall₂ (Zn.Rel N) l l') (h2 : List.Forall₂ (Zn.Rel N) k l') : l = k := by
+  induction h1 generalizing k with
+  | nil => cases h2; rfl
+  | cons hx _ ih =>
+    cases h2 with
+    | cons hy hr => rw [Zn.rel_unique hx hy, ih hr]
+
+/-- **the predicate sub-protocol is complete in the executable group**: `ne_complete`
+transferred along `zn_refines_units`: prover and verifier both computing with integers modulo
+`N`, the six recomputed `τ̂` values are the prover's six integers. -/
+theorem ne_complete_executable (N : ℕ) (hN : 1 < N) (m : OvfMode) (fourSq : ℤ → Outcome (List ℤ))
+    (pk : PubKey ℤ) (pk' : PubKey (Zn.U N)) (hpk : PKRel (Zn.Rel N) pk pk') (p : Pred)
+    (mTilde : List (String × ℤ)) (vals : Values) (tp : NeTape) (eq : EqProof ℤ) (c av mt : ℤ)
+    (uf rf utf rtf : String → ℤ)
+    (hval : lookup p.attr vals = some av) (hav : C03.I32 av) (hpv : C03.I32 p.value)
+    (hholds : p.holds av = true)
+    (hfs : ∀ d, getDelta m p av = .ok d →
+      fourSq d = .ok (iterKeys.map uf) ∧ (iterKeys.map fun k => uf k ^ 2).sum = d)
+    (hmt : lookup p.attr mTilde = some mt)
+    (heqm : lookup p.attr eq.m = some (c * av + mt))
+    (hr : Maps tp.r (iterKeys ++ ["DELTA"]) rf) (hut : Maps tp.uTilde iterKeys utf)
+    (hrt : Maps tp.rTilde (iterKeys ++ ["DELTA"]) rtf)
+    (hnn : 0 ≤ rtf "DELTA" ∧ 0 ≤ c * rf "DELTA" + rtf "DELTA") :
+    ∃ init prf, initNeProof (Zn.znOps N) m fourSq pk mTilde vals p tp = .ok init ∧
+      finalizeNeProof c init eq = .ok prf ∧
+      verifyNePredicate (Zn.znOps N) m pk prf c = .ok init.tauList := by
+  have : NeZero N := ⟨by omega⟩
+  have ho := Zn.znOps_refines hN
+  let eq' : EqProof (Zn.U N) := ⟨eq.revealed, 0, eq.e, eq.v, eq.m, eq.m2⟩
+  obtain ⟨init', prf', h1, h2, h3, _, _⟩ := ne_complete (Zn.encU N) m fourSq pk' p mTilde vals tp eq'
+    c av mt uf rf utf rtf hval hav hpv hholds hfs hmt heqm hr hut hrt hnn
+  have r1 := initNeProof_rel ho m fourSq hpk mTilde vals p tp
+  rw [h1] at r1
+  cases hi : initNeProof (Zn.znOps N) m fourSq pk mTilde vals p tp with
+  | ok init =>
+    rw [hi] at r1
+    have hinit : NeInitRel (Zn.Rel N) init init' := r1
+    have r2 := finalizeNeProof_rel hinit c (eq := eq) (eq' := eq') rfl
+    rw [h2] at r2
+    cases hf : finalizeNeProof c init eq with
+    | ok prf =>
+      rw [hf] at r2
+      have hprf : NeRel (Zn.Rel N) prf prf' := r2
+      have r3 := verifyNePredicate_rel ho m hpk hprf c
+      rw [h3] at r3
+      cases hve : verifyNePredicate (Zn.znOps N) m pk prf c with
+      | ok l =>
+        rw [hve] at r3
+        have hl : List.Forall₂ (Zn.Rel N) l init'.tauList := r3
+        exact ⟨init, prf, rfl, hf, by rw [hve, forall₂_rel_unique hl hinit.tauList]⟩
+      | err => rw [hve] at r3; exact absurd r3 (by simp [ORel])
+      | panic => rw [hve] at r3; exact absurd r3 (by simp [ORel])
+    | err => rw [hf] at r2; exact absurd r2 (by simp [ORel])
+    | panic => rw [hf] at r2; exact absurd r2 (by simp [ORel])
+  | err => rw [hi] at r1; exact absurd r1 (by simp [ORel])
+  | panic => rw [hi] at r1; exact absurd r1 (by simp [ORel])
+
 end ZnRefinement
 
 end CL.C01
